@@ -92,8 +92,8 @@ CHECKS["C15"] = {
     "units": [
         unit("./internal", CORE_FILES, "^Harness_C15_Reverse_n[1-4]$", QT, flags={"labels": "^C15:"}),
         unit("./internal", CORE_FILES, "^Harness_C15_Reverse_n[56]$", T, flags={"labels": "^C15:"}),
-        unit("./internal/controller/ledger", ["ctrl/dbmodel.go", "ctrl/lib.go", "ctrl/c25.go", "ctrl/ops.go", "ctrl/ops_gen.go", "ctrl/revert.go", "ctrl/revert_gen.go", "ctrl/refreplay.go"], "^Harness_REVC_", QT, flags={"labels": "^C15:", "max-decisions": 4000}, reach=["end"]),
-        unit("./internal/controller/ledger", ["ctrl/dbmodel.go", "ctrl/lib.go", "ctrl/c25.go", "ctrl/ops.go", "ctrl/ops_gen.go", "ctrl/revert.go", "ctrl/revert_gen.go", "ctrl/refreplay.go"], "^Harness_REVS_", QT, flags={"labels": "^C15:", "max-decisions": 4000}, reach=["end"]),
+        unit("./internal/controller/ledger", ["ctrl/dbmodel.go", "ctrl/lib.go", "ctrl/c25.go", "ctrl/ops.go", "ctrl/ops_gen.go", "ctrl/revert.go", "ctrl/revert_gen.go", "ctrl/refreplay.go", "ctrl/events.go", "ctrl/events_gen.go"], "^Harness_REVC_", QT, flags={"labels": "^C15:", "max-decisions": 4000}, reach=["end"]),
+        unit("./internal/controller/ledger", ["ctrl/dbmodel.go", "ctrl/lib.go", "ctrl/c25.go", "ctrl/ops.go", "ctrl/ops_gen.go", "ctrl/revert.go", "ctrl/revert_gen.go", "ctrl/refreplay.go", "ctrl/events.go", "ctrl/events_gen.go"], "^Harness_REVS_", QT, flags={"labels": "^C15:", "max-decisions": 4000}, reach=["end"]),
     ],
 }
 
@@ -115,7 +115,7 @@ CHECKS["C03"] = {
     ],
 }
 
-CTRL_FILES = ["ctrl/dbmodel.go", "ctrl/lib.go", "ctrl/c25.go", "ctrl/ops.go", "ctrl/ops_gen.go", "ctrl/revert.go", "ctrl/revert_gen.go", "ctrl/refreplay.go"]
+CTRL_FILES = ["ctrl/dbmodel.go", "ctrl/lib.go", "ctrl/c25.go", "ctrl/ops.go", "ctrl/ops_gen.go", "ctrl/revert.go", "ctrl/revert_gen.go", "ctrl/refreplay.go", "ctrl/events.go", "ctrl/events_gen.go"]
 CTRL_PKG = "./internal/controller/ledger"
 DBMODEL_ASSUME = [
     "dbmodel (harness/ctrl/dbmodel.go) stands for the SQL store below the controller's Store interface: tables as Go values, transactional write sets applied on Commit and dropped on Rollback, autocommit on a non-transactional handle, unique keys (ledger,id), (ledger,reference), (ledger,idempotency_key), (ledger,address), non-transactional sequences, 'a failed statement aborts the transaction', transaction_date() constant inside a transaction. It is trusted, not verified (no PostgreSQL in the sandbox)",
@@ -146,20 +146,20 @@ CHECKS["C25"] = {
 
 CHECKS["C07"] = {
     "level": "other",
-    "explanation": "Every write kind runs through the real DefaultController and logProcessor (forgeLog, forgeLogRetry, runTx, runLog, fetchLogWithIK) on the store model, from a committed history whose amounts are symbolic. Fault schedule: any one (thorough: any two) store call(s) of the operation — BeginTX, reads, every write, InsertLog, Commit — fails with a generic, deadlock or serialization error (the choice of call and kind are explored exhaustively; amounts stay symbolic). Decided: an operation that returns an error leaves the committed state (transactions, logs, volumes, accounts, metadata, moves, schemas) identical to the pre-state; DryRun=true leaves it identical as well — also when a store call fails and the retry path is taken — and returns the log type, postings, metadata and post-commit volumes that the same request returns as a real write on an identical ledger.",
-    "bounds": {"quick": OPS_LIST + "; history of 5 writes (3 transactions, 2 metadata writes) with symbolic amounts; <= 1 injected store failure per operation", "thorough": "<= 2 injected store failures per operation (concrete history)"},
+    "explanation": "Every write kind runs through the real DefaultController and logProcessor (forgeLog, forgeLogRetry, runTx, runLog, fetchLogWithIK) on the store model, from a committed history whose amounts are symbolic. Fault schedule: any one or two (thorough: three) store call(s) of the operation — BeginTX, reads, every write, InsertLog, Commit — fails with a generic, deadlock or serialization error (the choice of call and kind are explored exhaustively; amounts stay symbolic). Decided: an operation that returns an error leaves the committed state (transactions, logs, volumes, accounts, metadata, moves, schemas) identical to the pre-state; DryRun=true leaves it identical as well — also when a store call fails and the retry path is taken — and returns the log type, postings, metadata and post-commit volumes that the same request returns as a real write on an identical ledger.",
+    "bounds": {"quick": OPS_LIST + "; history of 5 writes (3 transactions, 2 metadata writes) with symbolic amounts; <= 2 injected store failures per operation (<= 1 with symbolic amounts)", "thorough": "<= 3 injected store failures per operation (<= 2 with symbolic amounts)"},
     "outside": "a crash of the process or connection in the middle of COMMIT (PostgreSQL atomicity is assumed); events (C31); more than 2 faults; histories other than the 5-write one",
     "assumptions": COMMON_ASSUME + DBMODEL_ASSUME,
-    "units": ctrl_units(["OPS_wet", "OPS_wetfault", "OPS_dry", "OPS_dryfault", "SYM_wet", "SYM_dry", "SYM_wetfault", "SYM_dryfault"], ["OPS_wetfault2"], "^C07:"),
+    "units": ctrl_units(["OPS_wet", "OPS_wetfault", "OPS_wetfault2", "OPS_dry", "OPS_dryfault", "OPS_dryfault2", "SYM_wet", "SYM_dry", "SYM_wetfault", "SYM_dryfault"], ["OPS_wetfault3", "SYM_wetfault2"], "^C07:"),
 }
 
 CHECKS["C08"] = {
     "level": "other",
     "explanation": "Same harnesses as C07, other assertions: a successful non-dry-run write appends exactly one log whose id is greater than every earlier id and equals the returned one (also after a deadlock retry); failed and dry-run writes append none (their state is unchanged, C07); and the payload alone determines the state: running the real importLog on the emitted log over a copy of the pre-state yields the same transactions (ids, postings, metadata, reference, timestamp, revert mark, post-commit volumes), volumes, accounts (address, first usage, metadata), moves and schemas as the live write did.",
-    "bounds": {"quick": OPS_LIST + "; symbolic amounts; <= 1 injected store failure", "thorough": "<= 2 injected failures"},
+    "bounds": {"quick": OPS_LIST + "; symbolic amounts; <= 2 injected store failures", "thorough": "<= 3 injected failures"},
     "outside": "log ids under concurrency (C16); hash chain (C09); insertion_date/updated_at stamps are not part of the replay relation; schema-carrying ledgers (chart default metadata) are covered under C29",
     "assumptions": COMMON_ASSUME + DBMODEL_ASSUME,
-    "units": ctrl_units(["OPS_wet", "OPS_wetfault", "SYM_wet", "SYM_wetfault"], ["OPS_wetfault2"], "^C08:"),
+    "units": ctrl_units(["OPS_wet", "OPS_wetfault", "OPS_wetfault2", "SYM_wet", "SYM_wetfault"], ["OPS_wetfault3"], "^C08:"),
 }
 
 CHECKS["C13"] = {
@@ -178,4 +178,22 @@ CHECKS["C02"] = {
     "outside": "the SQL of the upsert and of the read queries (accounts, volumes, aggregated balances) — not encoded; the store model adds VolumeUpdates() to the rows",
     "assumptions": COMMON_ASSUME + DBMODEL_ASSUME,
     "units": ctrl_units(["OPS_fold", "SYM_fold", "SYM_wet", "SYM_dry"], [], "^C02:"),
+}
+
+
+CHECKS["C31"] = {
+    "level": "other",
+    "explanation": "The real ControllerWithEvents wraps the real DefaultController on the store model; a recording listener snapshots, at the instant of each callback, how many logs are durably committed. Cases: a single request of every kind (wet / dry-run / with one or two injected store failures, including a failing COMMIT and the deadlock-retry path); a caller-owned SQL transaction (BeginTX, one or two writes, Commit or Rollback, with an injected failure) as the atomic bulk uses it; and the state tracker's sequence on an initializing ledger (BeginTX -> LockLedger -> write -> Commit/Rollback). Decided: no callback for failed, dry-run or rolled-back writes or when the commit fails; exactly one callback of the matching kind per committed write; every callback happens when its write is already committed.",
+    "bounds": {"quick": OPS_LIST + "; <= 2 injected failures for single requests (3 in the thorough tier), <= 1 inside a caller-owned transaction; 7 pairs of writes inside a caller-owned transaction; amounts symbolic in the EVS/EVTS harnesses", "thorough": "<= 3 injected failures for single requests"},
+    "outside": "the middle layers of the production stack (traces, cache, too-many-clients retry) are not in the harness stack; the bulker's own use of BeginTX is covered by C32's harness; the Listener implementation (bus publisher) itself",
+    "assumptions": COMMON_ASSUME + DBMODEL_ASSUME,
+    "units": [
+        unit(CTRL_PKG, CTRL_FILES, "^Harness_EVC_(wet|dry)_", QT, flags={"labels": "^C31:", "max-decisions": 4000}, reach=["end"]),
+        unit(CTRL_PKG, CTRL_FILES, "^Harness_EVC_(wetfault|dryfault)_", QT, flags={"labels": "^C31:", "max-decisions": 4000}, reach=["end"]),
+        unit(CTRL_PKG, CTRL_FILES, "^Harness_EVC_wetfault2_", QT, flags={"labels": "^C31:", "max-decisions": 4000, "max-paths": 200000}, reach=["end"]),
+        unit(CTRL_PKG, CTRL_FILES, "^Harness_EVS_", QT, flags={"labels": "^C31:", "max-decisions": 4000}, reach=["end"]),
+        unit(CTRL_PKG, CTRL_FILES, "^Harness_EVTS?_", QT, flags={"labels": "^C31:", "max-decisions": 4000}, reach=["end"]),
+        unit(CTRL_PKG, CTRL_FILES, "^Harness_EVL_", QT, flags={"labels": "^C31:", "max-decisions": 4000}, reach=["end"]),
+        unit(CTRL_PKG, CTRL_FILES, "^Harness_EVC_wetfault3_", T, flags={"labels": "^C31:", "max-decisions": 4000, "max-paths": 400000}, reach=["end"], timeout_s=7000),
+    ],
 }
